@@ -67,3 +67,25 @@ func ifCondCall(ifi *ssa.If) (*ssa.Call, bool) {
 	c, ok := v.(*ssa.Call)
 	return c, ok
 }
+
+// loopVar reports whether v is a loop variable: a phi one of whose incoming
+// values is computed from the phi itself (i = i >> 7, n += k).
+func loopVar(v ssa.Value) bool {
+	ph, ok := v.(*ssa.Phi)
+	if !ok {
+		return false
+	}
+	found := false
+	for _, e := range ph.Edges {
+		if e == ssa.Value(ph) {
+			continue
+		}
+		Backward(e, func(x ssa.Value) bool {
+			if x == ssa.Value(ph) {
+				found = true
+			}
+			return !found
+		})
+	}
+	return found
+}
